@@ -25,6 +25,7 @@ type Pipe struct {
 	rclosed  bool
 	name     string
 	ChunkLog []int
+	Written  int // total bytes accepted by Write
 }
 
 func NewPipe(s *sched.Sched, name string) *Pipe { return &Pipe{s: s, cap: 4, name: name} }
@@ -46,6 +47,7 @@ func (p *Pipe) Write(b []byte) (int, error) {
 		return 0, ErrAborted
 	}
 	p.buf = append(p.buf, append([]byte(nil), b...))
+	p.Written += len(b)
 	return len(b), nil
 }
 
@@ -115,7 +117,21 @@ type World struct {
 	Procs  []*Proc
 	byCmd  map[*vexp.Cmd]*Proc
 	Events []string
+	// OnStart, if set, is called when a process is about to start (after the
+	// interpreter's own preparations, before the child runs).
+	OnStart func(p *Proc)
 }
+
+// StdinDelivered reports how many bytes the parent has written into the child's stdin pipe.
+func (p *Proc) StdinDelivered() int {
+	if p.parentIn == nil {
+		return 0
+	}
+	return p.parentIn.Written
+}
+
+// Exited reports whether the process has ended.
+func (p *Proc) Exited() bool { return p.exited }
 
 func New(s *sched.Sched) *World {
 	return &World{S: s, byCmd: map[*vexp.Cmd]*Proc{}}
@@ -173,6 +189,9 @@ func (w *World) Start(c *vexp.Cmd) error {
 	}
 	p.Started = true
 	w.ev("start p%d %s", p.ID, p.Cmdline)
+	if w.OnStart != nil {
+		w.OnStart(p)
+	}
 	// like os/exec: a Stdout/Stderr that is not an *os.File gets a pipe + copy goroutine in the parent
 	if p.stdout == nil && c.Stdout != nil {
 		pp := NewPipe(w.S, fmt.Sprintf("p%d.stdoutcopy", p.ID))
